@@ -629,6 +629,7 @@ struct Session {
 	uint64_t id = 0;
 };
 
+static std::atomic<unsigned long> g_refused_first{0};
 // one session on the (possibly reused) client object; returns the client-side error, fills serr
 static std::string loop_session(WebSocket& ws, Session& se, int round, int& empties, std::string& serr)
 {
@@ -641,6 +642,25 @@ static std::string loop_session(WebSocket& ws, Session& se, int round, int& empt
 	}
 	std::string cerr_;
 	Watch* w = &sc->watch;
+	if ((sc->steps[0].seed & 3) == 0) {
+		// one session in four: the same object first makes a connect() that is refused (a port that is bound but not listening);
+		// the connect() that follows must work as on a fresh object (after seeded C11-P)
+		static int dead = [] {
+			int fd = socket(AF_INET, SOCK_STREAM, 0);
+			sockaddr_in a;
+			memset(&a, 0, sizeof a);
+			a.sin_family = AF_INET;
+			a.sin_addr.s_addr = htonl(INADDR_LOOPBACK);
+			socklen_t l = sizeof a;
+			if (fd < 0 || bind(fd, (sockaddr*)&a, sizeof a) != 0 || getsockname(fd, (sockaddr*)&a, &l) != 0)
+				return 0;
+			return (int)ntohs(a.sin_port); // the descriptor stays open and never listens
+		}();
+		if (dead > 0) {
+			ws.connect("127.0.0.1", dead);
+			g_refused_first++;
+		}
+	}
 	bool ok = ws.connect("127.0.0.1", se.via ? sv.port_http : sv.port_direct);
 	if (!ok)
 		cerr_ = round ? vf::str("client: connect()/handshake failed on the reused WebSocket object (round ", round, ")") : std::string("client: connect()/handshake failed");
@@ -795,6 +815,7 @@ static void run_loop(const vf::Case& c)
 		}
 	}
 	vf::stats().cls("loop.empty_results", (uint64_t)empties);
+	vf::stats().cls("loop.sessions_connecting_after_a_refused_connect", (uint64_t)g_refused_first.exchange(0));
 	if (!(cerr_.empty() && serr.empty()) && vf::now() - t_start > STUCK_S - 1) // a hang-type failure: do not spend the bound on every shrink candidate
 		g_hung = true;
 	std::string where = ss.size() > 1 ? vf::str("session ", round + 1, " of ", ss.size(), " on the same WebSocket object", round ? " (after close() + connect())" : "", ": ") : std::string();
